@@ -51,9 +51,9 @@ WASH_CLASSES = {
     "waste_location": [([0, 2], False), ([1, 1], True), ([67, 128], True), ([68, 2], False), ([52, 0], False), ([52, 129], False), ([1.0, 2], False), ([52, "1"], False)],
     "cleaner_location": [([0, 1], False), ([1, 128], True), ([67, 1], True), ([68, 1], False), ([52, 0], False), ([52, 129], False)],
     "arm": [(-1, False), (1, True), (2, False), ({"$none": 1}, False)],
-    "waste_vol": [(-0.1, False), (0, True), (100, True), (100.1, False), ("3", False), (3.14159, True), (0.25, True)],
+    "waste_vol": [(-0.1, False), (0, True), (100, True), (100.1, False), ("3", False), (3.14159, True), (0.25, True), (100.04, False), (-0.04, False), (-1e-9, False), (99.96, True)],
     "waste_delay": [(-1, False), (0, True), (1000, True), (1001, False), (1.5, False)],
-    "cleaner_vol": [(-1, False), (0.0, True), (100.0, True), (101, False), (7.77, True)],
+    "cleaner_vol": [(-1, False), (0.0, True), (100.0, True), (101, False), (7.77, True), (100.01, False), (-0.001, False)],
     "cleaner_delay": [(-1, False), (0, True), (1000, True), (1001, False), ("500", False)],
     "airgap": [(-1, False), (0, True), (100, True), (101, False), (1.0, False)],
     "airgap_speed": [(0, False), (1, True), (1000, True), (1001, False)],
